@@ -30,35 +30,16 @@ def isReader : UnOp → Bool
   | .OP_INT8BE | .OP_INT16BE | .OP_INT32BE | .OP_UINT8BE | .OP_UINT16BE | .OP_UINT32BE => true
   | _ => false
 
-/- **undef_propagation** — FULL STATEMENT, currently FALSE because of OP_DBL_LT (finding F4, exec.c:2138:
-   `if (is_undef(r1) || is_undef(r2)) r1.i = false;`).  Once notes/C04-dbl-lt.diff is applied to /repo:
-     1. delete the hypothesis `(h4 : op ≠ .OP_DBL_LT)` and the name suffix `_partial` in the theorem below
-        (its proof script then goes through unchanged: the `contradiction` branch is no longer needed for OP_DBL_LT),
-     2. delete theorem `dbl_lt_not_propagating` (it becomes false) and the F4 entry of known_findings.json.
-
-theorem undef_propagation (prim : String → List Int → Int) (op : BinOp) (a b : Int)
-    (hop : binExempt op = false) (h : isUndef a = true ∨ isUndef b = true) :
-    vmBin prim op a b = UNDEF
--/
-
-/-- Every two-operand pure opcode of exec.c other than OP_AND / OP_OR (and, until F4 is fixed, OP_DBL_LT)
+/-- **undef_propagation**: every two-operand pure opcode of exec.c other than OP_AND / OP_OR
     yields undefined when an operand is undefined — for all operands and every interpretation `prim` of the
     double / sized-string primitives. -/
-theorem undef_propagation_partial (prim : String → List Int → Int) (op : BinOp) (a b : Int)
-    (hop : binExempt op = false) (h4 : op ≠ .OP_DBL_LT) (h : isUndef a = true ∨ isUndef b = true) :
+theorem undef_propagation (prim : String → List Int → Int) (op : BinOp) (a b : Int)
+    (hop : binExempt op = false) (h : isUndef a = true ∨ isUndef b = true) :
     vmBin prim op a b = UNDEF := by
   cases op <;> simp only [vmBin] <;>
     first | contradiction | (simp [binExempt] at hop; done) | (rcases h with h | h <;> simp [h])
 
 example : binExempt .OP_INT_ADD = false ∧ vmBin (fun _ _ => 0) .OP_INT_ADD UNDEF 1 = UNDEF := by decide
-
-/-- F4 witness: OP_DBL_LT answers `false` (0), not undefined, for an undefined operand. -/
-theorem dbl_lt_not_propagating (prim : String → List Int → Int) :
-    vmBin prim .OP_DBL_LT UNDEF 0 = 0 ∧ vmBin prim .OP_DBL_LT UNDEF 0 ≠ UNDEF := by
-  have h : vmBin prim .OP_DBL_LT UNDEF 0 = 0 := by simp [vmBin, isUndef_UNDEF]
-  exact ⟨h, by rw [h]; decide⟩
-
-example : vmBin (fun _ _ => 7) .OP_DBL_LT UNDEF 0 = 0 := by decide
 
 /-- One-operand opcodes (`not` included, as the manual says; `defined` excluded; readers below). -/
 theorem undef_propagation_unary (prim : String → List Int → Int) (op : UnOp) (a : Int)
